@@ -116,6 +116,8 @@ type world struct {
 	sh   *shard.Shard
 	wc   bool
 	slow bool
+	// naive: the expired-objects callback deletes without its own lock check
+	naive bool
 
 	metaEpoch, gcEpoch, maxGC uint64
 
@@ -134,7 +136,7 @@ type world struct {
 func (w *world) logf(f string, a ...any) { w.ops = append(w.ops, fmt.Sprintf(f, a...)) }
 
 func (w *world) fail(f string, a ...any) {
-	w.t.Fatalf("%s\nconfig: write-cache=%v slow-batch=%v\nhistory:\n  %s", fmt.Sprintf(f, a...), w.wc, w.slow, strings.Join(w.ops, "\n  "))
+	w.t.Fatalf("%s\nconfig: write-cache=%v slow-batch=%v naive-expired-callback=%v\nhistory:\n  %s", fmt.Sprintf(f, a...), w.wc, w.slow, w.naive, strings.Join(w.ops, "\n  "))
 }
 
 func (w *world) get(k key) *mobj {
@@ -199,6 +201,12 @@ func (w *world) exempt(k key) bool {
 // locked objects, otherwise delete what exists.
 func (w *world) expiredCallback(addrs []oid.Address) {
 	for _, a := range addrs {
+		if w.naive {
+			// the consumer the metabase documents ("locked objects are not included")
+			// and the repo's own shard tests use: delete whatever is reported
+			_ = w.sh.Delete(a.Container(), []oid.ID{a.Object()})
+			continue
+		}
 		if locked, err := w.sh.IsLocked(a); err == nil && locked {
 			continue
 		}
@@ -302,6 +310,9 @@ func (w *world) pickTarget(c, self int, kind string) int {
 		case uni.Lock:
 			if m.spec.Kind == uni.Regular {
 				good = append(good, i)
+				if live, _ := w.locks(key{c, i}); live {
+					good = append(good, i, i) // second lock on the same object
+				}
 			}
 		case uni.Tombstone:
 			live, maybe := w.locks(key{c, i})
@@ -321,6 +332,49 @@ func (w *world) pickTarget(c, self int, kind string) int {
 		v++
 	}
 	return v
+}
+
+// freshIDs: ids of container c that neither have a model entry nor are the
+// target of any known spec.
+func (w *world) freshIDs(c int) []int {
+	isTarget := map[int]bool{}
+	for k, m := range w.objs {
+		if k.c == c && m.hasSpec && m.spec.Kind != uni.Regular {
+			isTarget[m.spec.Target] = true
+		}
+	}
+	lo, hi := idRange(c)
+	var fresh []int
+	for i := lo; i < hi; i++ {
+		if w.objs[key{c, i}] == nil && !isTarget[i] {
+			fresh = append(fresh, i)
+		}
+	}
+	return fresh
+}
+
+// actTombLocked aims a new TOMBSTONE at an object that currently has a lock.
+func (w *world) actTombLocked() {
+	t := w.t
+	var tgts []int
+	for i := 0; i < nObj; i++ {
+		if live, maybe := w.locks(keyOf(i)); live || maybe {
+			tgts = append(tgts, i)
+		}
+	}
+	if len(tgts) == 0 {
+		t.Skip("nothing is locked")
+	}
+	tg := keyOf(rapid.SampledFrom(tgts).Draw(t, "locked-target"))
+	fresh := w.freshIDs(tg.c)
+	if len(fresh) == 0 {
+		t.Skip("no fresh id")
+	}
+	k := key{tg.c, rapid.SampledFrom(fresh).Draw(t, "tomb-id")}
+	m := w.get(k)
+	m.spec = uni.Spec{Kind: uni.Tombstone, Cnr: k.c, ID: k.i, Exp: w.genExp("exp"), Target: tg.i, Parent: -1, ParentExp: -1, First: -1}
+	m.hasSpec = true
+	w.putKnown(k)
 }
 
 func (w *world) actPut() {
@@ -344,6 +398,12 @@ func (w *world) actPut() {
 		}
 		m.spec, m.hasSpec = s, true
 	}
+	w.putKnown(k)
+}
+
+// putKnown puts the object whose spec is already fixed and judges the outcome.
+func (w *world) putKnown(k key) {
+	m := w.objs[k]
 	s := m.spec
 	tk := key{s.Cnr, s.Target}
 
@@ -459,6 +519,69 @@ func (w *world) actMark() {
 	if live, _ := w.locks(k); live {
 		w.labels["forced-mark-on-locked"] = true
 	}
+}
+
+// actMarkLock force-marks one of several live locks of the same object (an
+// operator dropping one LOCK object); the others must keep protecting it.
+func (w *world) actMarkLock() {
+	t := w.t
+	var cands []int
+	for i := 0; i < nObj; i++ {
+		k := keyOf(i)
+		m := w.objs[k]
+		if m == nil || !m.hasSpec || m.spec.Kind != uni.Lock || !m.putOK || m.forced || expired(m.spec.Exp, w.metaEpoch) {
+			continue
+		}
+		n := 0
+		for j := 0; j < nObj; j++ {
+			o := w.objs[keyOf(j)]
+			if o != nil && o.hasSpec && o.spec.Kind == uni.Lock && cnrOf(j) == k.c && o.spec.Target == m.spec.Target && o.putOK && !o.forced && !expired(o.spec.Exp, w.metaEpoch) {
+				n++
+			}
+		}
+		if n >= 2 {
+			cands = append(cands, i)
+		}
+	}
+	if len(cands) == 0 {
+		// give a singly locked object a second lock first
+		var single []int
+		for i := 0; i < nObj; i++ {
+			m := w.objs[keyOf(i)]
+			if m != nil && m.hasSpec && m.spec.Kind == uni.Lock && m.putOK && !m.forced && !expired(m.spec.Exp, w.metaEpoch) {
+				single = append(single, i)
+			}
+		}
+		if len(single) == 0 {
+			t.Skip("no live lock")
+		}
+		first := keyOf(rapid.SampledFrom(single).Draw(t, "first-lock"))
+		fresh := w.freshIDs(first.c)
+		if len(fresh) == 0 {
+			t.Skip("no fresh id for a second lock")
+		}
+		second := key{first.c, rapid.SampledFrom(fresh).Draw(t, "second-lock")}
+		sp := uni.Spec{Kind: uni.Lock, Cnr: second.c, ID: second.i, Exp: int(w.metaEpoch) + rapid.IntRange(0, 4).Draw(t, "exp2"),
+			Target: w.objs[first].spec.Target, Parent: -1, ParentExp: -1, First: -1}
+		m := w.get(second)
+		m.spec, m.hasSpec = sp, true
+		reached, err := w.enginePut(sp)
+		w.logf("put %s @meta-epoch %d -> reached=%v %s (second lock)", sp, w.metaEpoch, reached, errClass(err))
+		if !reached || err != nil {
+			return
+		}
+		m.putOK = true
+		w.lockAccepted[key{sp.Cnr, sp.Target}] = true
+		cands = []int{first.i, second.i}
+	}
+	k := keyOf(rapid.SampledFrom(cands).Draw(t, "lock"))
+	err := w.sh.MarkGarbage(uni.Cnr(k.c), []oid.ID{uni.OID(k.i)}, meta.GarbageMarkDefault)
+	w.logf("mark-garbage LOCK %s (one of several locks of o%d) -> %s", k, w.objs[k].spec.Target, errClass(err))
+	if err != nil {
+		w.fail("MarkGarbage(%s) failed: %v", k, err)
+	}
+	w.objs[k].forced = true
+	w.labels["one-of-several-locks-dropped"] = true
 }
 
 func (w *world) noteExpiry(before uint64) {
@@ -711,6 +834,7 @@ func TestC07LockProtects(t *testing.T) {
 			lockAccepted: map[key]bool{}, threatened: map[key]bool{}, tombRejected: map[key]uint64{}, labels: map[string]bool{}}
 		w.wc = rapid.IntRange(0, 3).Draw(t, "write-cache") == 0
 		w.slow = rapid.IntRange(0, 3).Draw(t, "slow-batch") == 0
+		w.naive = rapid.IntRange(0, 3).Draw(t, "naive-callback") == 0
 		w.metaEpoch = uint64(rapid.IntRange(0, 3).Draw(t, "epoch0"))
 		w.ep.Set(w.metaEpoch)
 		w.open()
@@ -728,6 +852,9 @@ func TestC07LockProtects(t *testing.T) {
 			if w.wc {
 				ls = append(ls, "write-cache")
 			}
+			if w.naive {
+				ls = append(ls, "naive-expired-callback")
+			}
 			if w.lockExpiredGap {
 				ls = append(ls, "lock-expired-between-tombstone-and-gc")
 			}
@@ -743,7 +870,9 @@ func TestC07LockProtects(t *testing.T) {
 			"put":    func(*rapid.T) { w.actPut() },
 			"put2":   func(*rapid.T) { w.actPut() },
 			"put3":   func(*rapid.T) { w.actPut() },
+			"tomb-l": func(*rapid.T) { w.actTombLocked() },
 			"mark":   func(*rapid.T) { w.actMark() },
+			"mark-l": func(*rapid.T) { w.actMarkLock() },
 			"epoch":  func(*rapid.T) { w.actEpoch() },
 			"notify": func(*rapid.T) { w.actNotify() },
 			"gc":     func(*rapid.T) { w.actGC() },
